@@ -5,12 +5,18 @@ open PwVerif PwVerif.FuncWrap PwVerif.Proto
 /-! Line-protocol driver for the FuncWrap model (C17).
 
     cfg <recast 0|1> <cachedPanel 0|1>
-    def fn <nout> <ret>*        ret = t<i> (free term i of all parameters) | p<j> (parameter j) |
-                                 T:<ret>,<ret>,… (ONE returned object that is a tuple)
-    param <name> <default|->    (appends a parameter to the current `fn` definition)
-    def list <n> | def df <n> | def unpack <n> | def dict <name>=<default|->* |
-    def dc <already 0|1> <name>:<n|v|f>:<val>*
+    def fn <validate 0|1> <declared: - | l1,l2,…> <ret>*
+                                 ret = t<i> (free term i of all parameters) | p<j> (parameter j) |
+                                 T:<ret>,<ret>,… (ONE returned object that is a tuple): what the body computes
+    param <name> <default|-> <annotation: - | None | hint>     (appends a parameter)
+    retstmt bare | retstmt single <text…> | retstmt tuple      (appends a `return` statement as ast sees it)
+    retelt <text…>                                             (appends an element text to the last tuple)
+    retann - | None | <hint> <get_args hint>*
+    show                         (class-level preview of the `fn` definition, or its refusal)
+    def list <n> | def df <n> | def unpack <n> | def dict <name>:<hint|->=<default|->* |
+    def dc <already 0|1> <name>:<n|v|f>:<val>:<hint>*
     inst <npos> <val>^npos <key>=<val>*
+    io                           (labels, hints, defaults and values of the instance's channels)
     call <npos> <val>^npos <key>=<val>*
     again
 -/
@@ -88,14 +94,17 @@ def body (rets : List Ret) (vs : List Val) : Val :=
 
 inductive Kind where
   | none
-  | fn (sig : Sig) (nout : Nat) (rets : List Ret)
+  | fn (d : FnDef) (rets : List Ret)
   | xf (k : XfKind)
   | unpack
   | dc
 
+abbrev Preview := List InPrev × List (String × Hint)
+
 structure St where
   cfg : Cfg := Cfg.pinned
   kind : Kind := .none
+  pv : Option Preview := none      -- the class-level preview of the current definition
   proto : Option Node := none      -- the freshly set-up node of the current definition
   node : Option Node := none
   ranOk : Bool := false
@@ -121,12 +130,28 @@ def parseArgs (ws : List String) : Option (List Val × List (String × Val)) :=
         | some p, some k => some (p, k)
         | _, _ => none
 
-def outLabels (n : Nat) : List String := (List.range n).map fun i => "o" ++ toString i
+def showHint (h : Hint) : String := h.getD "-"
 
-def protoOf (s : St) : Option Node :=
-  match s.kind with
-  | .fn sig nout _ => some (mkNode sig (outLabels nout))
-  | _ => s.proto
+def showPreview (pv : Preview) : String :=
+  "ins=[" ++ ",".intercalate (pv.1.map fun p => s!"{p.label}:{showHint p.hint}={showVal p.dflt}") ++ "] outs=["
+    ++ ",".intercalate (pv.2.map fun o => s!"{o.1}:{showHint o.2}") ++ "]"
+
+/-- the instance's channels: labels, hints and defaults from `_setup_node`, values from the live node -/
+def showIO (pv : Preview) (n : Node) : String :=
+  let ins := (setupIns pv.1).zip n.ins
+  let outs := (setupOuts pv.2).zip n.outs
+  "io ins=[" ++ ",".intercalate (ins.map fun (c, v) => s!"{c.label}:{showHint c.hint}:{showVal c.dflt}={showVal v.2}")
+    ++ "] outs=[" ++ ",".intercalate (outs.map fun (c, v) => s!"{c.label}:{showHint c.hint}={showVal v.2}") ++ "]"
+
+def showDefErr : DefErr → String
+  | .reservedName => "reservedName"
+  | .multipleReturns => "multipleReturns"
+  | .degenerate => "degenerate"
+  | .countMismatch => "countMismatch"
+  | .presence => "presence"
+  | .hintCount => "hintCount"
+
+def parseHint (w : String) : Hint := if w == "-" then none else some w
 
 def showOutcome (n : Node) : Outcome → String
   | .ret v => s!"call ret={showVal v} outs={showVals n.outs} ins={showPanel n.ins}"
@@ -135,18 +160,30 @@ def showOutcome (n : Node) : Outcome → String
   | .notIterable => s!"call NotIterable ins={showPanel n.ins}"
   | .runError => s!"call RunError outs={showVals n.outs} ins={showPanel n.ins}"
 
-def parseField (w : String) : Option Field :=
+def parseField (w : String) : Option (Field × Hint) :=
   match w.splitOn ":" with
-  | [name, "n", _] => some ⟨name, .none⟩
-  | [name, "v", v] => (parseValS v).map fun v => ⟨name, .value v⟩
-  | [name, "f", v] => (parseValS v).map fun v => ⟨name, .factory v⟩
+  | [name, "n", _, h] => some (⟨name, .none⟩, parseHint h)
+  | [name, "v", v, h] => (parseValS v).map fun v => (⟨name, .value v⟩, parseHint h)
+  | [name, "f", v, h] => (parseValS v).map fun v => (⟨name, .factory v⟩, parseHint h)
   | _ => none
 
-def parseSpec (w : String) : Option Param :=
+/-- `<name>:<hint|->=<default|->` -/
+def parseSpec (w : String) : Option InPrev :=
   match w.splitOn "=" with
-  | [name, "-"] => some ⟨name, none⟩
-  | name :: v :: more => (parseValS ("=".intercalate (v :: more))).map fun v => ⟨name, some v⟩
+  | nh :: v :: more =>
+    match nh.splitOn ":" with
+    | [name, h] =>
+      let d := "=".intercalate (v :: more)
+      if d == "-" then some ⟨name, parseHint h, .nd⟩
+      else (parseValS d).map fun v => ⟨name, parseHint h, v⟩
+    | _ => none
   | _ => none
+
+def defXf (s : St) (k : Kind) (pv : Preview) : St × List String :=
+  ({ s with kind := k, pv := some pv, proto := some (setupNode pv.1 pv.2), node := none, ranOk := false },
+    [s!"def ok {showPreview pv}"])
+
+def joinWords (ws : List String) : String := " ".intercalate ws
 
 def init : St := {}
 
@@ -159,65 +196,101 @@ def step (s : St) (ws : List String) : St × List String :=
     | "1", "0" => ({ s with cfg := ⟨true, false⟩ }, [])
     | "1", "1" => ({ s with cfg := ⟨true, true⟩ }, [])
     | _, _ => (s, ["bad-op"])
-  | "def" :: "fn" :: nout :: rets =>
-    match nout.toNat?, rets.mapM parseRet with
-    | some nout, some rets =>
-      ({ s with kind := .fn [] nout rets, proto := none, node := none, ranOk := false }, [])
+  | "def" :: "fn" :: validate :: decl :: rets =>
+    match (if validate == "1" then some true else if validate == "0" then some false else none),
+          rets.mapM parseRet with
+    | some v, some rets =>
+      let declared := if decl == "-" then none else some (decl.splitOn ",")
+      ({ s with kind := .fn { params := [], rets := [], declared := declared, validate := v, retAnn := .empty } rets,
+                pv := none, proto := none, node := none, ranOk := false }, [])
     | _, _ => (s, ["bad-op"])
-  | ["param", name, d] =>
+  | ["param", name, d, a] =>
     match s.kind with
-    | .fn sig nout rets =>
-      if d == "-" then ({ s with kind := .fn (sig ++ [⟨name, none⟩]) nout rets }, [])
+    | .fn fd rets =>
+      let ann : Ann := if a == "-" then .empty else if a == "None" then .none_ else .obj a
+      if d == "-" then ({ s with kind := .fn { fd with params := fd.params ++ [⟨name, ann, none⟩] } rets }, [])
       else match parseValS d with
-        | some v => ({ s with kind := .fn (sig ++ [⟨name, some v⟩]) nout rets }, [])
+        | some v => ({ s with kind := .fn { fd with params := fd.params ++ [⟨name, ann, some v⟩] } rets }, [])
         | none => (s, ["bad-op"])
+    | _ => (s, ["bad-op"])
+  | "retstmt" :: what =>
+    match s.kind, what with
+    | .fn fd rets, ["bare"] => ({ s with kind := .fn { fd with rets := fd.rets ++ [.bare] } rets }, [])
+    | .fn fd rets, ["tuple"] => ({ s with kind := .fn { fd with rets := fd.rets ++ [.value (.tuple [])] } rets }, [])
+    | .fn fd rets, "single" :: w :: ws =>
+      ({ s with kind := .fn { fd with rets := fd.rets ++ [.value (.single (joinWords (w :: ws)))] } rets }, [])
+    | _, _ => (s, ["bad-op"])
+  | "retelt" :: w :: ws =>
+    match s.kind with
+    | .fn fd rets =>
+      match fd.rets.reverse with
+      | .value (.tuple es) :: before =>
+        ({ s with kind := .fn { fd with rets := (.value (.tuple (es ++ [joinWords (w :: ws)])) :: before).reverse } rets }, [])
+      | _ => (s, ["bad-op"])
+    | _ => (s, ["bad-op"])
+  | "retann" :: h :: args =>
+    match s.kind with
+    | .fn fd rets =>
+      let ra : Option RetAnn :=
+        if h == "-" then (if args.isEmpty then some .empty else none)
+        else if h == "None" then (if args.isEmpty then some .none_ else none)
+        else some (.obj h args)
+      match ra with
+      | some ra => ({ s with kind := .fn { fd with retAnn := ra } rets }, [])
+      | none => (s, ["bad-op"])
+    | _ => (s, ["bad-op"])
+  | ["show"] =>
+    match s.kind with
+    | .fn fd _ =>
+      match fnPreview fd with
+      | .ok pv => ({ s with pv := some pv, proto := some (setupNode pv.1 pv.2), node := none, ranOk := false },
+          [s!"def ok {showPreview pv}"])
+      | .error e => ({ s with pv := none, proto := none, node := none, ranOk := false }, [s!"def err {showDefErr e}"])
     | _ => (s, ["bad-op"])
   | ["def", "list", n] =>
     match n.toNat? with
-    | some n => ({ s with kind := .xf .toList, proto := some (inputsToListNode n), node := none, ranOk := false },
-        [s!"def ok ins={showPanel (inputsToListNode n).ins}"])
+    | some n => defXf s (.xf .toList) (listPreview n)
     | none => (s, ["bad-op"])
   | ["def", "df", n] =>
     match n.toNat? with
-    | some n => ({ s with kind := .xf .toDf, proto := some (inputsToDataframeNode n), node := none, ranOk := false },
-        [s!"def ok ins={showPanel (inputsToDataframeNode n).ins}"])
+    | some n => defXf s (.xf .toDf) (dfPreview n)
     | none => (s, ["bad-op"])
   | ["def", "unpack", n] =>
     match n.toNat? with
-    | some n => ({ s with kind := .unpack, proto := some (listToOutputsNode n), node := none, ranOk := false },
-        [s!"def ok ins={showPanel (listToOutputsNode n).ins} nouts={n}"])
+    | some n => defXf s .unpack (unpackPreview n)
     | none => (s, ["bad-op"])
   | "def" :: "dict" :: spec =>
     match spec.mapM parseSpec with
-    | some sig => ({ s with kind := .xf .toDict, proto := some (inputsToDictNode sig), node := none, ranOk := false },
-        [s!"def ok ins={showPanel (inputsToDictNode sig).ins}"])
+    | some sp => defXf s (.xf .toDict) (dictPreview sp)
     | none => (s, ["bad-op"])
   | "def" :: "dc" :: already :: fields =>
     match (if already == "1" then some true else if already == "0" then some false else none),
           fields.mapM parseField with
-    | some al, some fs =>
-      match nodeFields s.cfg al fs with
-      | none => ({ s with kind := .none, proto := none, node := none, ranOk := false }, ["def err"])
-      | some fs' => ({ s with kind := .dc, proto := some (dcNode fs'), node := none, ranOk := false },
-          [s!"def ok ins={showPanel (dcPreview fs')}"])
+    | some al, some fhs =>
+      match nodeFields s.cfg al (fhs.map (·.1)) with
+      | none => ({ s with kind := .none, pv := none, proto := none, node := none, ranOk := false }, ["def err dataclass"])
+      | some fs' =>
+        let pv : Preview := (dcInPreview fs' (fhs.map (·.2)), [("dataclass", some "*")])
+        ({ s with kind := .dc, pv := some pv, proto := some (dcNode fs'), node := none, ranOk := false },
+          [s!"def ok {showPreview pv}"])
     | _, _ => (s, ["bad-op"])
-  | ["show"] =>
-    match protoOf s with
-    | some n => (s, [s!"def ok ins={showPanel n.ins} nouts={n.outs.length}"])
-    | none => (s, ["bad-op"])
   | "inst" :: rest =>
-    match protoOf s, parseArgs rest with
+    match s.proto, parseArgs rest with
     | some n0, some (a, k) =>
       match construct n0 a k with
       | .ok n => ({ s with node := some n, ranOk := false }, [s!"inst ok ins={showPanel n.ins}"])
       | .error _ => ({ s with node := none, ranOk := false }, ["inst ValueError"])
+    | _, _ => (s, ["bad-op"])
+  | ["io"] =>
+    match s.pv, s.node with
+    | some pv, some n => (s, [showIO pv n])
     | _, _ => (s, ["bad-op"])
   | "call" :: rest =>
     match s.node, parseArgs rest with
     | some n, some (a, k) =>
       let r : Node × Outcome :=
         match s.kind with
-        | .fn _ _ rets => call (body rets) n a k
+        | .fn _ rets => call (body rets) n a k
         | .xf kd => xfCall kd n a k
         | .unpack => unpackCall n a k
         | .dc => dcCall n a k
@@ -229,7 +302,7 @@ def step (s : St) (ws : List String) : St × List String :=
     match s.node, s.ranOk with
     | some n, true =>
       let v := match s.kind with
-        | .fn _ _ _ => fnAgain n
+        | .fn _ _ => fnAgain n
         | .unpack => unpackAgain n
         | _ => xfAgain s.cfg n
       (s, [s!"again ret={showVal v}"])
